@@ -76,6 +76,7 @@ def units(tier):
                 sp = dict(spec)
                 sp["oidlen"] = ol
                 us.append({"name": f"oid{ol}_{name}", "shape": {"kind": "sent", "spec": sp}})
+    us.append({"name": "long_sentence_1200", "shape": {"kind": "long", "n": 1200, "spec": {"cls": "oc"}}})
     k = 0
     for u in us:
         if u["shape"]["kind"] == "sent":
@@ -126,7 +127,33 @@ def _sentence(ctx, spec):
     return text
 
 
+def _long(ctx, shape):
+    """a grammar sentence with thousands of list members / extensions (flat repetition)"""
+    S = ctx.L.schema
+    n = shape["n"]
+
+    def alpha(i):
+        out = ""
+        while True:
+            out = chr(65 + i % 26) + out
+            i //= 26
+            if not i:
+                return "E" + out
+
+    names = [f"n{i}" for i in range(n)]
+    oids = " $ ".join(names)
+    text = "( 1.2 NAME ( " + " ".join(f"'{x}'" for x in names) + f" ) SUP ( {oids} ) MUST ( {oids} ) X-A ( " + " ".join(f"'v{i}'" for i in range(n)) + " ) " + " ".join(f"X-{alpha(i)} 'x'" for i in range(n)) + " )"
+    try:
+        got = S.ObjectClassDescription.from_string(text)
+    except Exception as e:  # noqa: BLE001
+        ctx.fail("long-grammar-sentence-rejected", f"{type(e).__name__}@{exc_site(e)}")
+    exp_ext = {"A": [f"v{i}" for i in range(n)], **{alpha(i): ["x"] for i in range(n)}}
+    ctx.require(got.names == names and got.super_types == names and got.must == names and got.extensions == exp_ext, "long-sentence-fields-differ-from-grammar")
+
+
 def body(ctx, shape):
+    if shape.get("kind") == "long":
+        return _long(ctx, shape)
     spec = shape["spec"]
     C = SGm.klass(ctx, spec["cls"])
     if shape["kind"] == "sent":
